@@ -53,10 +53,13 @@ def _explore_one(arg):
     out["unsupported"] = x.unsupported
     out["obligations"] = [(ob.kind, ob.descr, ob.lineno, ob.smt2()) for ob in x.obligations]
     out["trivial"] = list(x.trivial)
-    out["canary"] = None
+    # must-fail canaries: the path conditions of up to 6 obligations spread over the run; the contract is vacuous
+    # only if NONE of them is satisfiable (single paths may be infeasible: pruning treats 'unknown' as feasible)
+    out["canary"] = []
     if x.obligations:
-        ob = x.obligations[-1]
-        out["canary"] = Obligation("canary", "canary", "path condition satisfiable", ob.assumptions, z3.BoolVal(False)).smt2()
+        step = max(1, len(x.obligations) // 6)
+        for ob in x.obligations[::step][:6]:
+            out["canary"].append(Obligation("canary", "canary", "path condition satisfiable", ob.assumptions, z3.BoolVal(False)).smt2())
     return out
 
 
@@ -211,9 +214,12 @@ def run_property(pid, tier="quick", seed=0, only=None, verbose=False):
             name = f"{pid}/{c.target}/{c.id}/{kind}#t{k}"
             meta[name] = {"contract": c, "descr": descr, "line": lineno, "kind": kind, "trivial": True}
         if c.canary and ex.get("canary"):
-            cname = f"{pid}/{c.id}/canary"
-            jobs.append((cname, ex["canary"], min(timeout_ms, 10000)))
-            canaries.append(cname)
+            group = []
+            for k, smt in enumerate(ex["canary"]):
+                cname = f"{pid}/{c.id}/canary#{k}"
+                jobs.append((cname, smt, min(timeout_ms, 10000)))
+                group.append(cname)
+            canaries.append((c.id, group))
 
     for lem in lemmas:
         try:
@@ -245,10 +251,9 @@ def run_property(pid, tier="quick", seed=0, only=None, verbose=False):
             refuted.append({"name": name, "backend": r["backend"], "s": r["s"], "descr": m["descr"], "line": m["line"], "model": r.get("model") or {}, "kind": m["kind"], "contract": m["contract"]})
         else:
             undecided.append({"contract": m["contract"].id, "obligation": name, "reason": "solver unknown/timeout", "attempts": r["attempts"]})
-    for cn in canaries:
-        r = by_name[cn]
-        if r["verdict"] == "unsat":
-            errors.append(f"{cn}: canary discharged -> contract is vacuous (contradictory requires/invariant)")
+    for cid, group in canaries:
+        if group and all(by_name[cn]["verdict"] == "unsat" for cn in group):
+            errors.append(f"{cid}: every canary discharged -> contract is vacuous (contradictory requires/invariant)")
 
     # ---- finite complete checks ------------------------------------------------------------
     finite_out = []
